@@ -92,6 +92,13 @@ func DirectedHeldEpoch(base string, seed int64, useCopy bool) (*DirectedResult, 
 			return nil, fmt.Errorf("directed: copy did not start")
 		}
 		time.Sleep(2 * time.Millisecond)
+		// a second, overlapping backup of the same root that finishes first: its
+		// release must not take away the protection of the files the parked one needs
+		dest2 := filepath.Join(filepath.Dir(dir), "copy2")
+		if err := r.Idx.(bleve.IndexCopyable).CopyTo(bleve.FileSystemDirectory(dest2)); err != nil {
+			res.CopyErr = fmt.Errorf("overlapping copy: %v", err)
+		}
+		_ = os.RemoveAll(dest2)
 	} else {
 		if rid, err = r.OpenReader(); err != nil {
 			return nil, err
